@@ -356,6 +356,44 @@ pub fn apply_one(ev0: &Value) -> Vec<Value> {
     vec![mk(out)]
 }
 
+/// `chain_encode`: the QUBO driver's path  log_encode(v) -> substitute(v := enc) -> evaluate(state over the bits),
+/// emitted as three separately judged events; `bits` selects the 0/1 pattern of the new binaries (bit k of the number)
+pub fn apply_chain_encode(ev: &Value) -> Vec<Value> {
+    let inp = &ev["in"];
+    let case = ev["case"].clone();
+    let mut outs = Vec::new();
+    let e1 = json!({"ev":"log_encode","case":case,"step":1,"src":ev["src"],"in":{"inst":inp["inst"],"vid":inp["vid"]}});
+    let r1 = apply_one(&e1);
+    let o1 = r1[0]["out"].clone();
+    outs.extend(r1);
+    if o1["tag"] != "ok" {
+        return outs;
+    }
+    let post1 = o1["post"].clone();
+    let e2 = json!({"ev":"inst_subst","case":case,"step":2,"src":ev["src"],"in":{"inst":post1,"repl":[[inp["vid"], o1["enc"]]]}});
+    let r2 = apply_one(&e2);
+    let o2 = r2[0]["out"].clone();
+    outs.extend(r2);
+    if o2["tag"] != "ok" {
+        return outs;
+    }
+    // state: the given values for the other variables + the chosen bit pattern for the variables log_encode added
+    let pre_ids: BTreeSet<u64> = inp["inst"]["vars"].as_array().unwrap().iter().map(|v| v["id"].as_u64().unwrap()).collect();
+    let mut st: Vec<Value> = inp["st"].as_array().unwrap().clone();
+    let bits = inp["bits"].as_u64().unwrap_or(0);
+    let mut k = 0;
+    for v in o2["post"]["vars"].as_array().unwrap() {
+        let id = v["id"].as_u64().unwrap();
+        if !pre_ids.contains(&id) {
+            st.push(json!([id, [((bits >> k) & 1), 1]]));
+            k += 1;
+        }
+    }
+    let e3 = json!({"ev":"evaluate","case":case,"step":3,"src":ev["src"],"in":{"inst":o2["post"],"st":st}});
+    outs.extend(apply_one(&e3));
+    outs
+}
+
 /// `seq`: in {inst, ops:[{op, ...args}]} -> one event per op with pre (`in.inst`) and post (`out.post`)
 pub fn apply_seq(ev: &Value) -> Vec<Value> {
     let inp = &ev["in"];
